@@ -626,4 +626,340 @@ theorem slive_step (st : St) (s : Step) (h : SLive st) : SLive (step st s).st :=
 
 theorem slive_reachable (st : St) (h : Reachable st) : SLive st := reachable_inv SLive slive_init slive_step st h
 
+/-! ### what is pushed into a channel (C05: only its own notifications) -/
+
+def pushes : List Effect → List (ChanId × Text)
+  | [] => []
+  | .push c p :: r => (c, p) :: pushes r
+  | _ :: r => pushes r
+
+theorem pushes_append (a b : List Effect) : pushes (a ++ b) = pushes a ++ pushes b := by
+  induction a with
+  | nil => rfl
+  | cons x xs ih => cases x <;> simp [pushes, ih]
+
+theorem mem_pushes (c : ChanId) (p : Text) (l : List Effect) : Effect.push c p ∈ l ↔ (c, p) ∈ pushes l := by
+  induction l with
+  | nil => simp [pushes]
+  | cons x xs ih => cases x <;> simp [pushes, ih]
+
+theorem pushes_dropQueued (l : List Effect) : pushes (dropQueued l) = pushes l := by
+  induction l with
+  | nil => rfl
+  | cons x xs ih =>
+    cases x <;> simp [dropQueued, List.filter, notToFront, pushes] <;> simpa [dropQueued] using ih
+
+theorem pushes_completeIfAlive (st : Core) (t : Ticket) (o : Outcome) : pushes (st.completeIfAlive t o) = [] := by
+  unfold Core.completeIfAlive; split <;> rfl
+
+/-- owner of channel `c` -/
+def ownerAt (st : Core) (c : ChanId) : Option Owner := (st.chans[c]?).map (·.owner)
+
+/-- channels keep their index and owner -/
+def OwnerStable (a b : Core) : Prop := ∀ c o, ownerAt a c = some o → ownerAt b c = some o
+
+theorem ownerStable_refl (a : Core) : OwnerStable a a := fun _ _ h => h
+theorem ownerStable_trans (a b c : Core) (h1 : OwnerStable a b) (h2 : OwnerStable b c) : OwnerStable a c :=
+  fun x o h => h2 x o (h1 x o h)
+
+theorem ownerStable_modChan (st : Core) (c : ChanId) (f : Chan → Chan) (hf : ∀ ch, (f ch).owner = ch.owner) :
+    OwnerStable st (st.modChan c f) := by
+  intro x o h
+  unfold ownerAt at h ⊢
+  simp only [Core.modChan, modifyAt_get]
+  split
+  · rename_i e; subst e
+    cases hg : st.chans[x]? with
+    | none => simp [hg] at h
+    | some y => simp [hg] at h ⊢; rw [hf]; exact h
+  · exact h
+
+theorem ownerStable_of_chans_eq {a b : Core} (h : b.chans = a.chans) : OwnerStable a b := by
+  intro x o hx; unfold ownerAt at hx ⊢; rw [h]; exact hx
+
+theorem ownerStable_processSubscriptionResponse (st : Core) (s : SubId) (p : Text) :
+    OwnerStable st (processSubscriptionResponse st s p).1 := by
+  unfold processSubscriptionResponse
+  split
+  · exact ownerStable_refl _
+  · split
+    · exact ownerStable_refl _
+    · split
+      · exact ownerStable_refl _
+      · exact ownerStable_modChan st _ _ (fun ch => afterSend_owner ch p)
+
+theorem ownerStable_processSubscriptionClose (st : Core) (s : SubId) : OwnerStable st (processSubscriptionClose st s) := by
+  unfold processSubscriptionClose
+  cases h1 : st.mgr.getRequestIdBySubscriptionId s with
+  | none => exact ownerStable_refl _
+  | some rid =>
+    simp only
+    cases h2 : st.mgr.removeSubscription rid s with
+    | none => exact ownerStable_refl _
+    | some x =>
+      obtain ⟨m', uid, c, um⟩ := x
+      simp only
+      exact ownerStable_modChan { st with mgr := m' } c _ (fun ch => rfl)
+
+theorem ownerStable_processNotification (st : Core) (m : Text) (p : Option Text) :
+    OwnerStable st (processNotification st m p).1 := by
+  unfold processNotification
+  cases h1 : st.mgr.asNotificationHandler m with
+  | none => exact ownerStable_refl _
+  | some c =>
+    simp only
+    cases h2 : st.chans[c]? with
+    | none => exact ownerStable_refl _
+    | some ch =>
+      simp only
+      cases h3 : ch.sendRes with
+      | ok => exact ownerStable_modChan st _ _ (fun x => afterSend_owner x _)
+      | closed => exact ownerStable_modChan { st with mgr := _ } _ _ (fun x => by simp [dropSender, afterSend_owner])
+      | full => exact ownerStable_modChan { st with mgr := _ } _ _ (fun x => by simp [dropSender, afterSend_owner])
+
+/-- the notification `e` legitimately feeds channel `c` with payload `q` -/
+def OwnNotif (st : Core) (e : Text) (c : ChanId) (q : Text) : Prop :=
+  (∃ s, classifyIncoming e = .subNotif s q ∧ ownerAt st c = some (.sub s)) ∨
+  (∃ m ps, classifyIncoming e = .notif m ps ∧ q = ps.getD tNull ∧ ownerAt st c = some (.method m))
+
+theorem ownNotif_stable {a b : Core} (h : OwnerStable a b) {e : Text} {c : ChanId} {q : Text} (ho : OwnNotif a e c q) :
+    OwnNotif b e c q := by
+  rcases ho with ⟨s, h1, h2⟩ | ⟨m, ps, h1, h2, h3⟩
+  · exact Or.inl ⟨s, h1, h c _ h2⟩
+  · exact Or.inr ⟨m, ps, h1, h2, h c _ h3⟩
+
+theorem processSubscriptionResponse_pushes (st : Core) (s : SubId) (p : Text) (hr : Routes st) (c : ChanId) (q : Text)
+    (h : (c, q) ∈ pushes (processSubscriptionResponse st s p).2) : q = p ∧ ownerAt st c = some (.sub s) := by
+  unfold processSubscriptionResponse at h
+  cases h1 : st.mgr.getRequestIdBySubscriptionId s with
+  | none => simp [h1, pushes] at h
+  | some rid =>
+    simp only [h1] at h
+    cases h2 : st.mgr.asSubscription rid with
+    | none => simp [h2, pushes] at h
+    | some c' =>
+      simp only [h2] at h
+      cases h3 : st.chans[c']? with
+      | none => simp [h3, pushes] at h
+      | some ch =>
+        simp only [h3] at h
+        cases h4 : ch.sendRes with
+        | ok =>
+          simp [h4, pushes] at h
+          obtain ⟨e1, e2⟩ := h
+          subst e1 e2
+          obtain ⟨uid, ch', um, g1, g2⟩ := hr.subs s rid h1
+          unfold Mgr.asSubscription at h2
+          rw [g1] at h2; simp at h2; subst h2
+          exact ⟨rfl, g2⟩
+        | closed => simp [h4, pushes] at h
+        | full => simp [h4, pushes] at h
+
+theorem processNotification_pushes (st : Core) (m : Text) (ps : Option Text) (hr : Routes st) (c : ChanId) (q : Text)
+    (h : (c, q) ∈ pushes (processNotification st m ps).2) : q = ps.getD tNull ∧ ownerAt st c = some (.method m) := by
+  unfold processNotification at h
+  cases h1 : st.mgr.asNotificationHandler m with
+  | none => simp [h1, pushes] at h
+  | some c' =>
+    simp only [h1] at h
+    cases h3 : st.chans[c']? with
+    | none => simp [h3, pushes] at h
+    | some ch =>
+      simp only [h3] at h
+      cases h4 : ch.sendRes with
+      | ok =>
+        simp [h4, pushes] at h
+        obtain ⟨e1, e2⟩ := h
+        subst e1 e2
+        exact ⟨rfl, hr.handlers m _ h1⟩
+      | closed => simp [h4, pushes] at h
+      | full => simp [h4, pushes] at h
+
+theorem abandonedSubscribe_pushes (st : Core) (c : ChanId) (rid : Id) (s : SubId) (t : Ticket) :
+    pushes (abandonedSubscribe st c rid s t).2 = [] := by
+  unfold abandonedSubscribe; split <;> rfl
+
+theorem completeSubscribe_pushes (st : Core) (r : Response) (uid : Id) (t : Ticket) (um : Text) :
+    pushes (completeSubscribe st r uid t um).2 = [] := by
+  unfold completeSubscribe
+  cases hp : r.payload with
+  | error e => exact pushes_completeIfAlive _ _ _
+  | result raw =>
+    simp only
+    cases hd : decodeSubId raw with
+    | none => exact pushes_completeIfAlive _ _ _
+    | some s =>
+      simp only
+      cases hins : st.mgr.insertSubscription r.id uid s st.chans.length um with
+      | none => exact pushes_completeIfAlive _ _ _
+      | some m' =>
+        simp only
+        cases hal : st.alive t with
+        | true => rfl
+        | false => simp only [Bool.false_eq_true, if_false]; exact abandonedSubscribe_pushes _ _ _ _ _
+
+theorem processSingleResponse_pushes (st st' : Core) (r : Response) (effs : List Effect)
+    (hp : processSingleResponse st r = .ok (st', effs)) : pushes effs = [] := by
+  unfold processSingleResponse at hp
+  cases hs : st.mgr.requestStatus r.id with
+  | pendingCall =>
+    simp only [hs] at hp
+    cases hcp : st.mgr.completePendingCall r.id with
+    | none => simp [hcp] at hp
+    | some x =>
+      obtain ⟨m', t0⟩ := x
+      cases t0 with
+      | none => simp [hcp] at hp; rw [hp.2]; rfl
+      | some t1 => simp [hcp] at hp; rw [← hp.2]; exact pushes_completeIfAlive _ _ _
+  | pendingSub =>
+    simp only [hs] at hp
+    cases hcp : st.mgr.completePendingSubscription r.id with
+    | none => simp [hcp] at hp
+    | some x =>
+      obtain ⟨m', uid, t0, um⟩ := x
+      simp [hcp] at hp
+      have := completeSubscribe_pushes { st with mgr := m' } r uid t0 um
+      rw [hp] at this; exact this
+  | sub => simp [hs] at hp
+  | invalid => simp [hs] at hp
+
+theorem processBatchResponse_pushes (st : Core) (rps : List Response) (lo hi : Nat) :
+    pushes (processBatchResponse st rps lo hi).2.1 = [] := by
+  unfold processBatchResponse
+  cases hc : st.mgr.completePendingBatch (lo, hi) with
+  | none => rfl
+  | some x =>
+    obtain ⟨m', t⟩ := x
+    simp only
+    split
+    · rfl
+    · exact pushes_completeIfAlive _ _ _
+
+/-- every push of the array loop comes from one of the array's own notification elements -/
+theorem arrayLoop_pushes (all : List Text) (es : List Text) : ∀ (acc acc' : ArrAcc) (f : Option Fatal),
+    arrayLoop acc es = (acc', f) → (∀ e ∈ es, e ∈ all) → CInv acc.st →
+    (∀ c q, (c, q) ∈ pushes acc.effs → ∃ e ∈ all, OwnNotif acc.st e c q) →
+    CInv acc'.st ∧ ∀ c q, (c, q) ∈ pushes acc'.effs → ∃ e ∈ all, OwnNotif acc'.st e c q := by
+  induction es with
+  | nil => intro acc acc' f h _ hc hp; simp [arrayLoop] at h; rw [← h.1]; exact ⟨hc, hp⟩
+  | cons e rest ih =>
+    intro acc acc' f h hall hc hp
+    have hall' : ∀ x ∈ rest, x ∈ all := fun x hx => hall x (List.mem_cons_of_mem _ hx)
+    have he : e ∈ all := hall e List.mem_cons_self
+    rw [arrayLoop] at h
+    cases hcl : classifyIncoming e with
+    | response r =>
+      simp only [hcl] at h
+      cases hid : idNum r.id with
+      | none => simp [hid] at h; rw [← h.1]; exact ⟨hc, hp⟩
+      | some id => simp only [hid] at h; have := ih _ _ _ h hall' hc hp; exact this
+    | garbage => simp [hcl] at h; rw [← h.1]; exact ⟨hc, hp⟩
+    | subNotif s p =>
+      simp only [hcl] at h
+      have hst := ownerStable_processSubscriptionResponse acc.st s p
+      refine ih _ _ _ h hall' (cinv_processSubscriptionResponse acc.st s p hc) ?_
+      intro c q hq
+      simp only [pushes_append, List.mem_append] at hq
+      rcases hq with hq | hq
+      · obtain ⟨e', he', ho⟩ := hp c q hq
+        exact ⟨e', he', ownNotif_stable hst ho⟩
+      · obtain ⟨e1, e2⟩ := processSubscriptionResponse_pushes acc.st s p hc.routes c q hq
+        subst e1
+        exact ⟨e, he, Or.inl ⟨s, hcl, hst c _ e2⟩⟩
+    | subClose s =>
+      simp only [hcl] at h
+      have hst := ownerStable_processSubscriptionClose acc.st s
+      refine ih _ _ _ h hall' (cinv_processSubscriptionClose acc.st s hc) ?_
+      intro c q hq
+      obtain ⟨e', he', ho⟩ := hp c q hq
+      exact ⟨e', he', ownNotif_stable hst ho⟩
+    | notif m ps =>
+      simp only [hcl] at h
+      have hst := ownerStable_processNotification acc.st m ps
+      refine ih _ _ _ h hall' (cinv_processNotification acc.st m ps hc) ?_
+      intro c q hq
+      simp only [pushes_append, List.mem_append] at hq
+      rcases hq with hq | hq
+      · obtain ⟨e', he', ho⟩ := hp c q hq
+        exact ⟨e', he', ownNotif_stable hst ho⟩
+      · obtain ⟨e1, e2⟩ := processNotification_pushes acc.st m ps hc.routes c q hq
+        exact ⟨e, he, Or.inr ⟨m, ps, hcl, e1, hst c _ e2⟩⟩
+
+theorem handleArray_pushes (st : Core) (es : List Text) (hc : CInv st) (c : ChanId) (q : Text)
+    (h : (c, q) ∈ pushes (handleArray st es).effs) : ∃ e ∈ es, OwnNotif (handleArray st es).st e c q := by
+  unfold handleArray at h ⊢
+  cases hl : arrayLoop { st := st } es with
+  | mk acc f =>
+    obtain ⟨hc', hp⟩ := arrayLoop_pushes es es _ _ _ hl (fun _ h => h) hc (by intro c q hq; simp [pushes] at hq)
+    cases f with
+    | some f =>
+      simp only [hl, pushes_dropQueued] at h ⊢
+      exact hp c q h
+    | none =>
+      simp only [hl] at h ⊢
+      unfold arrayFinish at h ⊢
+      cases hr : acc.range with
+      | none =>
+        simp only [hr] at h ⊢
+        split at h
+        · rename_i hg; simp only [hg, if_true]; exact hp c q h
+        · rename_i hg; simp only [hg]; rw [pushes_dropQueued] at h; exact hp c q h
+      | some pr =>
+        obtain ⟨lo, hi⟩ := pr
+        simp only [hr] at h ⊢
+        cases he : rangeEnd hi with
+        | err e => simp only [he, pushes_dropQueued] at h ⊢; exact hp c q h
+        | ok hi1 =>
+          simp only [he] at h ⊢
+          have hst : OwnerStable acc.st (processBatchResponse acc.st acc.batch lo hi1).1 :=
+            ownerStable_of_chans_eq (processBatchResponse_requests acc.st acc.batch lo hi1).2.2.2
+          split at h
+          · rename_i f hf
+            rw [pushes_dropQueued] at h
+            obtain ⟨e', he', ho⟩ := hp c q h
+            exact ⟨e', he', ownNotif_stable hst ho⟩
+          · rename_i hf
+            rw [pushes_append, processBatchResponse_pushes, List.append_nil] at h
+            obtain ⟨e', he', ho⟩ := hp c q h
+            exact ⟨e', he', ownNotif_stable hst ho⟩
+
+/-! ### packing: an array of notifications ≡ the same notifications one by one -/
+
+def isNotifLike : Incoming → Bool
+  | .subNotif _ _ => true
+  | .subClose _ => true
+  | .notif _ _ => true
+  | _ => false
+
+/-- handling the texts one after the other, each as a single message -/
+def seqSingles : Core → List Text → Core × List Effect
+  | st, [] => (st, [])
+  | st, e :: rest => ((seqSingles (handleSingle st e).st rest).1, (handleSingle st e).effs ++ (seqSingles (handleSingle st e).st rest).2)
+
+theorem arrayLoop_notifs (es : List Text) (hn : ∀ e ∈ es, isNotifLike (classifyIncoming e) = true) : ∀ acc : ArrAcc,
+    arrayLoop acc es = ({ acc with st := (seqSingles acc.st es).1, effs := acc.effs ++ (seqSingles acc.st es).2,
+                                   gotNotif := acc.gotNotif || !es.isEmpty }, none) := by
+  induction es with
+  | nil => intro acc; simp [arrayLoop, seqSingles]
+  | cons e rest ih =>
+    intro acc
+    have hn' : ∀ x ∈ rest, isNotifLike (classifyIncoming x) = true := fun x hx => hn x (List.mem_cons_of_mem _ hx)
+    have he := hn e List.mem_cons_self
+    rw [arrayLoop]
+    cases hcl : classifyIncoming e with
+    | response r => rw [hcl] at he; simp [isNotifLike] at he
+    | garbage => rw [hcl] at he; simp [isNotifLike] at he
+    | subNotif s p =>
+      simp only
+      rw [ih hn']
+      simp [seqSingles, handleSingle, hcl, List.append_assoc]
+    | subClose s =>
+      simp only
+      rw [ih hn']
+      simp [seqSingles, handleSingle, hcl]
+    | notif m ps =>
+      simp only
+      rw [ih hn']
+      simp [seqSingles, handleSingle, hcl, List.append_assoc]
+
 end Jrpc.Client
